@@ -263,7 +263,7 @@ class TypedNode(Node):
         ):
             raise TypeError("If child is a node or tree it must be typed.")
 
-        if isinstance(child, self._tree.__class__):
+        if isinstance(child, TypedTree):
             if deep is None:
                 deep = True
             self._add_nodes(child._root.children, before=before, deep=deep)
